@@ -33,7 +33,7 @@ def process(run, programs, evaluator, metas=None, limit=4, chunk=400, label="pro
     """programs: list of line lists. evaluator(program, result) -> None | (match dict, message): the property evaluated on the
     implementation's answers only. Returns statistics."""
     stats = {"programs": len(programs), "requests": 0, "diff_programs": 0, "property_failures": 0}
-    reported = 0
+    cands_pv, cands_diff = [], []
     chunks = [programs[i:i + chunk] for i in range(0, len(programs), chunk)]
     all_results = common.parallel_map(run_programs, chunks)
     idx = 0
@@ -56,9 +56,9 @@ def process(run, programs, evaluator, metas=None, limit=4, chunk=400, label="pro
                 stats["diff_programs"] += 1
             if pv is not None:
                 stats["property_failures"] += 1
-            if reported >= limit:
-                continue
-            reported += 1
+            (cands_pv if pv is not None else cands_diff).append((p, res, meta, pv, d))
+    # property failures first (they carry a failing input), then programs on which only model and implementation differ
+    for (p, res, meta, pv, d) in cands_pv[:limit] + cands_diff[:limit]:
             if pv is not None:
                 kind0 = pv[0].get("kind")
 
